@@ -3,6 +3,7 @@ package props
 import (
 	"fmt"
 	"go/ast"
+	"go/token"
 	"go/types"
 	"regexp"
 	"sort"
@@ -26,11 +27,11 @@ func init() {
 
 func runC18(c *core.Ctx) {
 	c.Rule("R1", "start waits for all dependencies; a failed dependency aborts the start and fails the dependant", 4)
-	c.Rule("R2", "stop waits for all dependants", 2)
+	c.Rule("R2", "stop waits for all dependants", 3)
 	c.Rule("R3", "exactly-once initialisation over orderedDeps(name)+name", 3)
 	c.Rule("R4", "cycle check precedes dependency insertion", 2)
 	c.Rule("R5", "failure propagation", 1)
-	c.Rule("R6", "dependency queries read only the dependency graph", 4)
+	c.Rule("R6", "dependency queries read only the dependency graph and never write through an alias of it", 5)
 	c.Rule("R7", "orderedDeps: a module is placed only after each of its dependencies has been placed (inductive invariant of the ordering loop)", 3)
 	pkg := c.Prog.Pkg("modules")
 	if pkg == nil {
@@ -155,6 +156,39 @@ func runC18(c *core.Ctx) {
 				}
 			}
 			c.Check(okw, "R2", "func=waitForModulesToStop", w.Pos(), "every non-nil dependant is awaited to termination: "+detail, 2)
+			// … and the loop is left only when every dependant was visited
+			exits := []string{}
+			if len(loops) == 1 {
+				var walk func(n ast.Node, inner bool)
+				walk = func(n ast.Node, inner bool) {
+					ast.Inspect(n, func(m ast.Node) bool {
+						switch x := m.(type) {
+						case *ast.FuncLit:
+							return false
+						case *ast.ReturnStmt:
+							exits = append(exits, "return at "+c.Prog.PosStr(x.Pos()))
+						case *ast.BranchStmt:
+							if x.Tok == token.GOTO || (x.Tok == token.BREAK && (!inner || x.Label != nil)) {
+								exits = append(exits, x.Tok.String()+" at "+c.Prog.PosStr(x.Pos()))
+							}
+						case *ast.ForStmt, *ast.RangeStmt, *ast.SwitchStmt, *ast.TypeSwitchStmt, *ast.SelectStmt:
+							if m != n && !inner {
+								walk(m, true)
+								return false
+							}
+						}
+						return true
+					})
+				}
+				walk(loops[0].Body, false)
+				panics := 0
+				for _, call := range w.Calls(false) {
+					if an.ObjIs(call.Callee, "", "panic") && an.InNode(loops[0], call.Expr) {
+						panics++
+					}
+				}
+				c.Check(len(exits) == 0 && panics == 0, "R2", "func=waitForModulesToStop:all", loops[0].Pos(), fmt.Sprintf("the loop over the dependants has no exit but exhaustion (a dependant that failed does not end the wait for the others): early exits %v", exits), 1)
+			}
 		} else {
 			c.Miss("R2", "func=waitForModulesToStop", "not found")
 		}
@@ -341,6 +375,100 @@ func runC18(c *core.Ctx) {
 		}
 		c.Check(okR, "R6", "func="+name, fn.Pos(), fmt.Sprintf("Manager fields read %v, written %v in the query's call cone (must read only 'modules' and write nothing: a cached answer could be stale after AddDependency)", keys(reads), keys(writes)), len(seen))
 	}
+	// no write through an alias: in-place slice mutators in package modules operate on fresh slices only
+	nMut := 0
+	var aliasBad []string
+	var badPos token.Pos
+	for _, top := range an.Funcs(pkg) {
+		for _, call := range top.Calls(true) {
+			f := call.Func()
+			if f == nil || f.Pkg() == nil || len(call.Expr.Args) == 0 {
+				continue
+			}
+			inPlace := false
+			switch f.Pkg().Path() {
+			case "sort":
+				inPlace = f.Name() == "Strings" || f.Name() == "Ints" || f.Name() == "Slice" || f.Name() == "SliceStable" || f.Name() == "Sort" || f.Name() == "Stable"
+			case "slices":
+				switch f.Name() {
+				case "Sort", "SortFunc", "SortStableFunc", "Reverse", "Compact", "CompactFunc", "Delete", "DeleteFunc", "Insert", "Replace":
+					inPlace = true
+				}
+			}
+			if !inPlace {
+				continue
+			}
+			nMut++
+			fn := call.In
+			if ok, why := freshSlice(fn, call.Expr.Args[0], 0); !ok {
+				aliasBad = append(aliasBad, fmt.Sprintf("%s: %s(%s): %s", fn.Name, f.Name(), fn.Canon(call.Expr.Args[0]), why))
+				badPos = call.Expr.Pos()
+			}
+		}
+	}
+	if len(aliasBad) > 0 {
+		c.Viol("R6", "alias:in-place-mutators", badPos, fmt.Sprintf("an in-place slice operation may write through an alias of the dependency graph (a query would edit Manager.modules[*].deps): %v", aliasBad))
+	} else {
+		c.Hold("R6", "alias:in-place-mutators", pkg.Syntax[0].Pos(), fmt.Sprintf("all %d in-place slice operations (sort.*, slices.Sort/Reverse/Compact/…) in package modules act on slices that are freshly allocated on every path (make, nil, literal, self-append)", nMut), nMut)
+	}
+}
+
+// freshSlice: every definition of the slice expression is a fresh allocation (make, nil/zero, composite
+// literal) or an append onto itself / onto a fresh slice. A field read, a parameter, an index
+// expression or a call result may alias storage owned by someone else.
+func freshSlice(fn *an.Fn, e ast.Expr, depth int) (bool, string) {
+	e = an.Unparen(e)
+	switch x := e.(type) {
+	case *ast.CompositeLit:
+		return true, ""
+	case *ast.CallExpr:
+		o := an.Callee(fn.Info(), x)
+		if an.ObjIs(o, "", "make") {
+			return true, ""
+		}
+		if an.ObjIs(o, "", "append") && len(x.Args) > 0 {
+			return freshSlice(fn, x.Args[0], depth+1)
+		}
+		if tv, ok := fn.Info().Types[x.Fun]; ok && tv.IsType() && len(x.Args) == 1 { // conversion
+			return freshSlice(fn, x.Args[0], depth+1)
+		}
+		return false, "result of " + fn.Canon(x.Fun) + " may alias"
+	case *ast.Ident:
+		if x.Name == "nil" {
+			return true, ""
+		}
+		v, ok := fn.ObjOf(x).(*types.Var)
+		if !ok || depth > 6 {
+			return false, x.Name + " is not a local"
+		}
+		if fn.AssignedOutside(v) {
+			return false, x.Name + " is assigned in another function body"
+		}
+		sites := fn.DefSites(v)
+		if len(sites) == 0 {
+			return false, x.Name + " has no definition here"
+		}
+		for _, d := range sites {
+			if d.Zero {
+				continue
+			}
+			if d.Param || d.Expr == nil {
+				return false, x.Name + " is a parameter or an opaque value"
+			}
+			// self-append: x = append(x, …)
+			if call, ok := an.Unparen(d.Expr).(*ast.CallExpr); ok && an.ObjIs(an.Callee(fn.Info(), call), "", "append") && len(call.Args) > 0 && fn.ObjOf(call.Args[0]) == v {
+				continue
+			}
+			if strings.Contains(d.Canon, "#") || strings.HasPrefix(d.Canon, "each(") || strings.HasPrefix(d.Canon, "keyof(") {
+				return false, x.Name + " holds " + d.Canon
+			}
+			if ok, why := freshSlice(fn, d.Expr, depth+1); !ok {
+				return false, x.Name + " may hold " + fn.Canon(d.Expr) + " (" + why + ")"
+			}
+		}
+		return true, ""
+	}
+	return false, fn.Canon(e) + " is not a fresh allocation"
 }
 
 // c18Order checks the inductive invariant of orderedDeps' placement loop: a name is appended to the
